@@ -91,7 +91,8 @@ NoCtr == [hi |-> -1, lo |-> 0]
 Cred(id, rp, user, ctr, hm) == [id |-> id, rp |-> rp, user |-> user, ctr |-> ctr, hm |-> hm]
 
 BaseCfg == [uvCap |-> "configured", upCap |-> TRUE, counterOn |-> TRUE, idLen |-> 16, hmac |-> "off", mc |-> FALSE,
-            storeKind |-> "reference", disc |-> "full", emptyAsErr |-> FALSE]
+            storeKind |-> "reference", disc |-> "full", emptyAsErr |-> FALSE,
+            wrap |-> "none"]     \* which shipped lock wrapper stands in front of the reference store (transparent in the model)
 
 NoPrfReq == [given |-> FALSE, eval |-> "absent", byCred |-> <<>>, byCredGiven |-> FALSE]
 BaseReq == [rp |-> "r1", user |-> "u1", algs |-> <<"ES256">>, exclude |-> <<>>, excludeGiven |-> FALSE,
@@ -119,10 +120,13 @@ C04_Cers ==
 -----------------------------------------------------------------------------
 (* C11 (authenticator level): store capability x rk, then an assertion      *)
 
-C11_Cfgs == { [BaseCfg EXCEPT !.disc = d] : d \in {"full", "nondisc", "forced"} }
+\* the store's capability must reach the authenticator through every shipped lock wrapper as well
+Wraps == {"none", "mutex", "rwlock", "arcmutex", "arcrwlock"}
+C11_Cfgs == { [BaseCfg EXCEPT !.disc = d, !.wrap = w] : d \in {"full", "nondisc", "forced"}, w \in Wraps }
 C11_Stores == { << <<>> >> }
 C11_Cers == { << Cer("ctap2", "mc", [BaseReq EXCEPT !.rk = rk], BaseEnv),
-                 Cer("ctap2", "ga", BaseReq, BaseEnv) >> : rk \in BOOLEAN }
+                 Cer("ctap2", "ga", [BaseReq EXCEPT !.up = up], [BaseEnv EXCEPT !.uv = UvOk(p, v)]) >> :
+                rk \in BOOLEAN, up \in BOOLEAN, p \in BOOLEAN, v \in BOOLEAN }
 
 -----------------------------------------------------------------------------
 (* C07: every store call failing (singly and combined), every cancel point  *)
@@ -162,6 +166,18 @@ C05_Cers ==
     \cup
     { << Cer("ctap2", "mc", [BaseReq EXCEPT !.rp = r, !.exclude = a, !.excludeGiven = g, !.user = "u3", !.unkType = t], BaseEnv) >> :
         r \in {"r1", "r2"}, a \in C05_Lists, g \in BOOLEAN, t \in BOOLEAN }
+\* shipped stores: also a relying party whose id differs from r1 only in letter case / is a sub-domain of it
+C05_NearContents ==
+    { SelectSeq(<<Cred("c1", a, "u1", NoCtr, "none"), Cred("c3", c, "u2", Ctr(0, 1), "none")>>, LAMBDA x : x.rp # "absent") :
+        a \in {"r1", "absent"}, c \in {"r1case", "r1sub"} }
+C05_NearCers ==
+    { << Cer("ctap2", "ga", [BaseReq EXCEPT !.rp = r, !.allow = a, !.allowGiven = a # <<>>], BaseEnv) >> :
+        r \in {"r1", "r1case", "r1sub"}, a \in {<<>>, <<"c1">>, <<"c3">>, <<"c1", "c3">>} }
+    \cup
+    { << Cer("ctap2", "mc", [BaseReq EXCEPT !.rp = r, !.exclude = a, !.excludeGiven = TRUE, !.user = "u3"], BaseEnv) >> :
+        r \in {"r1", "r1case", "r1sub"}, a \in {<<"c1">>, <<"c3">>, <<"c1", "c3">>} }
+C05_NearStores == { <<s>> : s \in C05_NearContents }
+C05_NearSlotStores == { <<s>> : s \in { t \in C05_NearContents : Len(t) <= 1 } }
 C05_CfgsRef == { [BaseCfg EXCEPT !.emptyAsErr = e] : e \in BOOLEAN }
 C05_CfgsMem == { [BaseCfg EXCEPT !.storeKind = "memory", !.disc = "forced"] }
 C05_CfgsSlot == { [BaseCfg EXCEPT !.storeKind = "slot", !.disc = "forced"] }
@@ -255,8 +271,9 @@ C04c_Cers ==
 \* C11 through the client: capability x residentKey x requireResidentKey x credProps, then an assertion
 C11c_Cers ==
     { << Cer("client", "mc", [BaseCReq EXCEPT !.residentKey = rk, !.requireRk = rr, !.credProps = cp], BaseEnv),
-         Cer("client", "ga", BaseCReq, BaseEnv) >> :
-        rk \in {"absent", "discouraged", "preferred", "required"}, rr \in BOOLEAN, cp \in {"absent", "false", "true"} }
+         Cer("client", "ga", [BaseCReq EXCEPT !.uvreq = u], [BaseEnv EXCEPT !.uv = UvOk(TRUE, u # "discouraged")]) >> :
+        rk \in {"absent", "discouraged", "preferred", "required"}, rr \in BOOLEAN, cp \in {"absent", "false", "true"},
+        u \in {"preferred", "discouraged"} }
 
 \* C02 through the client
 C02c_Cfgs == { [BaseCfg EXCEPT !.idLen = n, !.counterOn = c] : n \in {16, 64}, c \in BOOLEAN }
@@ -279,7 +296,7 @@ C03c_Cers ==
              [BaseEnv EXCEPT !.uv = UvOk(TRUE, u # "discouraged")]) >> :
         rk \in {"discouraged", "required"}, d \in {DomOk1, DomHost, DomOk2, DomEvil, DomHttp},
         a \in {<<>>, <<"n1">>, <<"n2">>, <<"x1">>, <<"n2", "n1">>}, g \in BOOLEAN,
-        u \in {"required", "discouraged"}, m \in {"default", "extra", "hash"}, ch \in {"c0", "c32"} }
+        u \in {"required", "discouraged"}, m \in {"default", "extra", "hash", "hash20", "hash64"}, ch \in {"c0", "c32"} }
 
 -----------------------------------------------------------------------------
 (* C09: PRF                                                                 *)
